@@ -395,11 +395,28 @@ def search(ctx):
             if np.all(np.isfinite(got)) and np.all(np.isfinite(want.real)) and np.max(np.abs(want.imag)) < 1e-12 and np.max(np.abs(got)) < 1e8:
                 if got.shape != (2, 2) or np.max(np.abs(got - want.real)) > 1e-8 * (1 + np.max(np.abs(got))):
                     report("s2c:matrix", "matrix conversion changed an entry", {"matrix": sympy.srepr(M), "point": pt, "casadi": got.tolist(), "sympy": want.real.tolist()})
-            e3 = (e1 + e2) ** 2 + sympy.sin(e1 + e2)
+            # the caller's own (initially empty) dict is the symbol table: filled in place, reused by the next call
+            own = {}
+            d1, _ = symb.sympy_to_casadi(xs[0] * xs[1] + e1, f_dict={"foo": impl_ca["foo"]}, symbols=own)
+            snap = dict(own)
+            d2, _ = symb.sympy_to_casadi(xs[0] - xs[1] + e2, f_dict={"foo": impl_ca["foo"]}, symbols=own)
+            v1 = {v.name(): v for v in ca.symvar(ca.SX(d1))}; v2 = {v.name(): v for v in ca.symvar(ca.SX(d2))}
+            if not all(k in own for k in ("x", "y")) or any(not ca.is_equal(own[k], snap[k]) for k in snap) \
+                    or any(not ca.is_equal(v1[k], v2[k]) for k in v1 if k in v2) or any(not ca.is_equal(v1[k], own[k]) for k in v1 if k in own):
+                report("s2c:symbols-dict", "two conversions sharing the caller's symbol dict do not share their variables",
+                       {"exprs": [sympy.srepr(e1), sympy.srepr(e2)], "dict_after": sorted(own)})
+            u_ = e1 + e2
+            e3 = (u_) ** 2 + sympy.sin(u_) * sympy.cos(sympy.sin(u_)) + sympy.sin(u_) ** 2     # nested common sub-expressions
             c3, tab3 = symb.sympy_to_casadi(e3, f_dict={"foo": impl_ca["foo"]}, symbols={}, cse=True)
             st["cse"] += 1
-            names = sorted(tab3); f3 = ca.Function("c", [tab3[k] for k in names], [ca.SX(c3)])
-            v = float(f3.call([pt[k] for k in names])[0])
+            names = sorted(tab3)
+            try:
+                f3 = ca.Function("c", [tab3[k] for k in names], [ca.SX(c3)])
+                v = float(f3.call([pt[k] for k in names])[0])
+            except RuntimeError as ex:     # e.g. a temporary of sympy.cse left free in the result
+                report("s2c:cse", "the cse=True path returns an expression that cannot be evaluated over its symbol table: " + str(ex)[-160:],
+                       {"expr": sympy.srepr(e3), "table": names})
+                continue
             w = complex(sympy.N(e3.replace(sympy.Function("foo"), impl_sym["foo"]).subs({s: sympy.Float(pt[s.name]) for s in xs})))
             if math.isfinite(v) and abs(w.imag) < 1e-12 and math.isfinite(w.real) and abs(v) < 1e8 and not close(v, w.real, 1e-8):
                 report("s2c:cse", "the cse=True path changed the value", {"expr": sympy.srepr(e3), "point": pt, "casadi": v, "sympy": w.real})
@@ -465,6 +482,32 @@ def search(ctx):
             if not close(v_real.real, v_src, 1e-8):
                 report("c2s:value", "casadi_to_sympy changed the value of the expression", dict(inp, point=pt, sympy=v_real.real, casadi=v_src, result=str(s_real)),
                        abs(v_real.real - v_src), 1e-8, obligation="theorem:C19.c2s_sound")
+    # matrices, casadi -> sympy: entry (i, j) of the result is the conversion of entry (i, j)
+    for i in range(40 if big else 10):
+        r_, c_ = int(rng.integers(1, 4)), int(rng.integers(1, 4))
+        M = ca.SX(r_, c_)
+        for a in range(r_):
+            for b in range(c_):
+                M[a, b] = gen_casadi(rng, 2, X) + (a + 1) * 10 + b
+        try:
+            syms = {}
+            Ms = symb.casadi_to_sympy(M, syms)
+        except Exception:   # noqa: BLE001
+            continue
+        st["matrices"] += 1
+        name2sym = {str(v): v for v in syms.values()}
+        pt = {k: float(rng.uniform(-2, 2)) for k in ("x", "y", "z")}
+        fnm = ca.Function("m", X, [M])
+        want = np.array(fnm(pt["x"], pt["y"], pt["z"])).reshape(r_, c_)
+        try:
+            if r_ * c_ == 1:
+                got = np.array([[complex(sympy.N(sympy.sympify(Ms).subs({name2sym[k]: sympy.Float(pt[k]) for k in name2sym})))]])
+            else:
+                got = np.array(sympy.N(Ms.subs({name2sym[k]: sympy.Float(pt[k]) for k in name2sym})).tolist(), dtype=complex)
+        except (TypeError, ValueError, AttributeError, RecursionError):
+            continue
+        if got.shape != want.shape or (np.all(np.isfinite(want)) and np.all(np.isfinite(got.real)) and np.max(np.abs(got - want)) > 1e-8 * (1 + np.max(np.abs(want)))):
+            report("c2s:matrix", "casadi_to_sympy changed (or moved) an entry of a matrix", {"matrix": str(M), "point": pt, "sympy": got.real.tolist(), "casadi": want.tolist()})
     # symbol table of casadi_to_sympy
     syms = {}
     a = symb.casadi_to_sympy(X[0] + X[1] * X[0], syms); b = symb.casadi_to_sympy(ca.sin(X[0]) + X[2], syms)
